@@ -223,13 +223,25 @@ def first_component_kinds(fnode, param_kinds):
 # Abstract shapes: "bot" (nothing yet) | "n" (JSON-able scalar: result of a cell normaliser, a str / number / bool / None built in
 # place) | ("list", s) | ("dict", s) | ("tuple", (s1, ...)) | "raw" (anything else).  Flow-insensitive fixpoint over one function
 # body: comprehensions, loops (incl. enumerate / zip), appends / extends / item stores, tuple unpacking, slices, repetition.
+def kjoin(a, b):
+    """Key classes of a mapping: bot < lit (string literals that are not markers) < raw (anything else) < marker (a literal marker)."""
+    order = {"bot": 0, "lit": 1, "raw": 2, "marker": 3}
+    return a if order[a] >= order[b] else b
+
+
+def mkdict(val, key="raw"):
+    return ("dict", val, key)
+
+
 def sjoin(a, b):
     if a == "bot":
         return b
     if b == "bot" or a == b:
         return a
     if isinstance(a, tuple) and isinstance(b, tuple) and a[0] == b[0]:
-        if a[0] in ("list", "dict"):
+        if a[0] == "dict":
+            return ("dict", sjoin(a[1], b[1]), kjoin(a[2] if len(a) > 2 else "raw", b[2] if len(b) > 2 else "raw"))
+        if a[0] == "list":
             return (a[0], sjoin(a[1], b[1]))
         if a[0] == "tuple" and len(a[1]) == len(b[1]):
             return ("tuple", tuple(sjoin(x, y) for x, y in zip(a[1], b[1])))
@@ -267,9 +279,41 @@ def stext(s):
     return f"{s[0]}[{stext(s[1])}]"
 
 
+def key_classes(s):
+    """Join of the key classes of every mapping inside a shape."""
+    if isinstance(s, str):
+        return "bot"
+    if s[0] == "tuple":
+        out = "bot"
+        for x in s[1]:
+            out = kjoin(out, key_classes(x))
+        return out
+    if s[0] == "dict":
+        return kjoin(s[2] if len(s) > 2 else "raw", key_classes(s[1]))
+    return key_classes(s[1])
+
+
+def key_class(e, lit_names=()):
+    if isinstance(e, ast.Constant) and isinstance(e.value, str):
+        return "marker" if e.value in MARKERS else "lit"
+    if isinstance(e, ast.Name) and e.id in lit_names:
+        return lit_names[e.id]
+    return "raw"
+
+
 class Provenance:
-    def __init__(self, fnode, normalisers):
+    def __init__(self, fnode, normalisers, attr_env=None, call_shape=None):
         self.fn, self.norm = fnode, normalisers          # {callee name: result shape}
+        self.attr_env = attr_env                         # shared {attribute name: shape} (object-insensitive) or None
+        self.call_shape = call_shape                     # fn(name) -> shape | None: return shape of a module-level function
+        self.lit_names = {}                              # names bound only to string literals -> their key class
+        for n in ast.walk(fnode):
+            if isinstance(n, ast.For) and isinstance(n.target, ast.Name) and isinstance(n.iter, (ast.Tuple, ast.List)) \
+                    and n.iter.elts and all(isinstance(x, ast.Constant) and isinstance(x.value, str) for x in n.iter.elts):
+                kc = "bot"
+                for x in n.iter.elts:
+                    kc = kjoin(kc, key_class(x))
+                self.lit_names[n.target.id] = kc
         self.env = {}
         self.alias = {}          # name -> representative (x = y for containers: stores through either name reach both)
         params = [a.arg for a in fnode.args.posonlyargs + fnode.args.args + fnode.args.kwonlyargs]
@@ -306,10 +350,20 @@ class Provenance:
                     self.bind(t, selem(shape) if shape != "bot" else "bot")
         elif isinstance(target, ast.Subscript) and isinstance(target.value, ast.Name) and not isinstance(target.slice, ast.Slice):
             cur = self.get(target.value.id)
-            kind = "list" if isinstance(cur, tuple) and cur[0] == "list" else "dict"
-            self.put(target.value.id, (kind, shape))
+            if isinstance(cur, tuple) and cur[0] == "list":
+                self.put(target.value.id, ("list", shape))
+            else:
+                self.put(target.value.id, ("dict", shape, key_class(target.slice, self.lit_names)))
         elif isinstance(target, ast.Starred):
             self.bind(target.value, "raw")
+        elif isinstance(target, ast.Attribute) and self.attr_env is not None:
+            self.attr_env[target.attr] = sjoin(self.attr_env.get(target.attr, "bot"), shape)
+        elif isinstance(target, ast.Subscript) and isinstance(target.value, ast.Attribute) and self.attr_env is not None \
+                and not isinstance(target.slice, ast.Slice):
+            a_ = target.value.attr
+            cur = self.attr_env.get(a_, "bot")
+            new = ("list", shape) if isinstance(cur, tuple) and cur[0] == "list" else ("dict", shape, key_class(target.slice, self.lit_names))
+            self.attr_env[a_] = sjoin(cur, new)
         # attribute stores are sinks, handled by the caller
 
     def ev(self, e):
@@ -321,6 +375,8 @@ class Provenance:
             return "n"
         if isinstance(e, ast.Name):
             return self.get(e.id) if e.id in self.env else ("n" if e.id in ("True", "False", "None") else "raw")
+        if isinstance(e, ast.Attribute) and self.attr_env is not None and e.attr in self.attr_env:
+            return self.attr_env[e.attr]
         if isinstance(e, ast.IfExp):
             return sjoin(self.ev(e.body), self.ev(e.orelse))
         if isinstance(e, ast.BoolOp):
@@ -342,15 +398,19 @@ class Provenance:
         if isinstance(e, ast.Tuple):
             return ("tuple", tuple(self.ev(x) for x in e.elts))
         if isinstance(e, ast.Dict):
-            out = "bot"
+            out, kc = "bot", "bot"
             for k, v in zip(e.keys, e.values):
-                out = sjoin(out, self.ev(v) if k is not None else selem(self.ev(v)))
-            return ("dict", out)
+                if k is not None:
+                    out, kc = sjoin(out, self.ev(v)), kjoin(kc, key_class(k, self.lit_names))
+                else:
+                    sv_ = self.ev(v)
+                    out, kc = sjoin(out, selem(sv_)), kjoin(kc, sv_[2] if isinstance(sv_, tuple) and sv_[0] == "dict" and len(sv_) > 2 else "raw")
+            return ("dict", out, kc)
         if isinstance(e, (ast.ListComp, ast.GeneratorExp, ast.SetComp, ast.DictComp)):
             for g in e.generators:
                 self.bind(g.target, selem(self.ev(g.iter)))
             if isinstance(e, ast.DictComp):
-                return ("dict", self.ev(e.value))
+                return ("dict", self.ev(e.value), key_class(e.key, self.lit_names))
             return ("list", self.ev(e.elt))
         if isinstance(e, ast.Subscript):
             base = self.ev(e.value)
@@ -376,8 +436,19 @@ class Provenance:
                 return "n"
             if name in ("list", "tuple", "sorted", "reversed", "set") and len(e.args) >= 1:
                 return ("list", selem(self.ev(e.args[0])))
-            if name in ("list", "dict") and not e.args and not e.keywords:
-                return (name, "bot")
+            if name == "list" and not e.args and not e.keywords:
+                return ("list", "bot")
+            if name == "dict" and not e.args:
+                out, kc = "bot", "bot"
+                for k in e.keywords:
+                    if k.arg is None:
+                        return ("dict", "raw", "raw")
+                    out, kc = sjoin(out, self.ev(k.value)), kjoin(kc, "marker" if k.arg in MARKERS else "lit")
+                return ("dict", out, kc)
+            if self.call_shape is not None and name is not None and name not in self.norm:
+                cs = self.call_shape(name)
+                if cs is not None:
+                    return cs
             if name == "enumerate" and e.args:
                 return ("list", ("tuple", ("n", selem(self.ev(e.args[0])))))
             if name == "zip":
@@ -388,7 +459,7 @@ class Provenance:
                 if isinstance(s_, tuple) and s_[0] == "dict":
                     return s_
                 if isinstance(el, tuple) and el[0] == "tuple" and len(el[1]) == 2:
-                    return ("dict", el[1][1])
+                    return ("dict", el[1][1], "raw")
                 return "raw"
             if isinstance(f, ast.Attribute):
                 base = self.ev(f.value)
@@ -427,6 +498,21 @@ class Provenance:
             self.bind(st.target, self.ev(ast.BinOp(left=_load(st.target), op=st.op, right=st.value)))
         elif isinstance(st, ast.Expr):
             e = st.value
+            if isinstance(e, ast.Call) and isinstance(e.func, ast.Attribute) and isinstance(e.func.value, ast.Attribute) and self.attr_env is not None \
+                    and e.func.attr in ("append", "extend", "insert", "update", "setdefault") and e.args:
+                a_ = e.func.value.attr                      # obj.attr.append(x) etc.
+                cur = self.attr_env.get(a_, "bot")
+                x = self.ev(e.args[-1])
+                if e.func.attr in ("append", "insert"):
+                    new = ("list", x)
+                elif e.func.attr == "extend":
+                    new = ("list", selem(x))
+                elif e.func.attr == "update":
+                    new = x if isinstance(x, tuple) and x[0] == "dict" else ("dict", "raw", "raw")
+                else:
+                    new = ("dict", x, key_class(e.args[0], self.lit_names))
+                self.attr_env[a_] = sjoin(cur, new)
+                return
             if isinstance(e, ast.Call) and isinstance(e.func, ast.Attribute) and isinstance(e.func.value, ast.Name):
                 acc, m = e.func.value.id, e.func.attr
                 if m == "append" and len(e.args) == 1:
@@ -439,10 +525,11 @@ class Provenance:
                     self.put(acc, ("list", selem(self.ev(e.args[0]))))
                     return
                 if m == "update" and len(e.args) == 1:
-                    self.put(acc, ("dict", selem(self.ev(e.args[0])) if self.ev(e.args[0]) != "raw" else "raw"))
+                    u = self.ev(e.args[0])
+                    self.put(acc, u if isinstance(u, tuple) and u[0] == "dict" else ("dict", selem(u) if u != "raw" else "raw", "raw"))
                     return
                 if m == "setdefault" and len(e.args) == 2:
-                    self.put(acc, ("dict", self.ev(e.args[1])))
+                    self.put(acc, ("dict", self.ev(e.args[1]), key_class(e.args[0], self.lit_names)))
                     return
                 if m in ("pop", "clear", "sort", "reverse", "remove"):
                     return
@@ -500,3 +587,57 @@ def _load(t):
         if hasattr(n, "ctx"):
             n.ctx = ast.Load()
     return t2
+
+
+class ModuleFlow:
+    """Provenance over a whole module: attributes are tracked by name (object-insensitive), module-level functions by the
+    join of what they return (memoised, recursion-guarded).  Used for the key classes of mapping-typed fields."""
+
+    def __init__(self, module):
+        self.m = module
+        self.attr_env = {}
+        self._ret, self._busy = {}, set()
+        fns = [f for q, f in module.functions.items()]
+        for _ in range(3):
+            before = dict(self.attr_env)
+            self.provs = {id(f): Provenance(f, {}, self.attr_env, self.ret_shape) for f in fns}
+            if self.attr_env == before:
+                break
+
+    def ret_shape(self, name):
+        fn = self.m.functions.get(name)
+        if fn is None:
+            return None
+        if name in self._ret:
+            return self._ret[name]
+        if name in self._busy:
+            return "bot"
+        self._busy.add(name)
+        try:
+            pv_ = Provenance(fn, {}, self.attr_env, self.ret_shape)
+            out = "bot"
+            for _ln, sh in pv_.sinks("return"):
+                out = sjoin(out, sh)
+        finally:
+            self._busy.discard(name)
+        self._ret[name] = out
+        return out
+
+    def enclosing(self, node):
+        best = None
+        for q, f in self.m.functions.items():
+            if any(x is node for x in ast.walk(f)) and (best is None or sum(1 for _ in ast.walk(f)) < sum(1 for _ in ast.walk(best))):
+                best = f
+        return best
+
+    def shape_at(self, expr):
+        fn = self.enclosing(expr)
+        if fn is None:
+            return "raw"
+        return Provenance(fn, {}, self.attr_env, self.ret_shape).ev(expr)
+
+
+def shape_has_dict(shape):
+    if shape[0] == "dict":
+        return True
+    return any(shape_has_dict(x) for x in shape[1:] if isinstance(x, tuple))
